@@ -2,6 +2,7 @@ import XzVerif.Model.Writer2
 import XzVerif.Proofs.Lzma2RoundTrip
 import XzVerif.Proofs.Chunk
 import XzVerif.Proofs.SizeBound
+import XzVerif.Proofs.Writer2Run
 
 /-!
   Refinement of the Writer2 machine (Model/Writer2.lean) to the chunk emitter (Codec/Lzma2.lean):
@@ -42,5 +43,371 @@ def allOk (rs : List (CallRes × Nat)) : Prop := ∀ r ∈ rs, r.1.err = none
 
 /-- the chunk list without a trailing end marker -/
 def dataChunks (w : WSt σ) : List Chunk := w.chunks.toList.filter (fun ck => ck.kind ≠ .eos)
+
+/-! ## helper lemmas: the definitions above against their copies in Proofs/Writer2Lemmas.lean, and `run` -/
+
+theorem cfgOk' {c : Cfg} (h : CfgOk c) : CfgOk' c := h
+
+theorem goOpOk_eq (c : Cfg) (hist look : ByteArray) (s : St) (g : GoOp) :
+    GoOpOk c hist look s g = GoOpOk' c hist look s g := by
+  cases g <;> rfl
+
+theorem matcherOk' {c : Cfg} {M : Matcher σ} (h : MatcherOk c M) : MatcherOk' c M := by
+  intro m hist look s h1
+  rw [← goOpOk_eq]
+  exact h m hist look s h1
+
+theorem allOk_nil : allOk ([] : List (CallRes × Nat)) := by
+  intro r hr; cases hr
+
+theorem allOk_cons (r : CallRes × Nat) (rs : List (CallRes × Nat)) :
+    allOk (r :: rs) ↔ r.1.err = none ∧ allOk rs := by
+  unfold allOk
+  simp only [List.mem_cons, forall_eq_or_imp]
+
+theorem allOk_append (a b : List (CallRes × Nat)) : allOk (a ++ b) ↔ allOk a ∧ allOk b := by
+  unfold allOk
+  simp only [List.mem_append]
+  constructor
+  · intro h; exact ⟨fun r hr => h r (Or.inl hr), fun r hr => h r (Or.inr hr)⟩
+  · intro h r hr
+    rcases hr with hr | hr
+    · exact h.1 r hr
+    · exact h.2 r hr
+
+theorem run_cons (c : Cfg) (M : Matcher σ) (w : WSt σ) (call : Call) (rest : List Call) :
+    run c M w (call :: rest) =
+      ((run c M (step c M w call).1 rest).1,
+       ((step c M w call).2, (step c M w call).1.out.size) :: (run c M (step c M w call).1 rest).2) := rfl
+
+theorem run_append (c : Cfg) (M : Matcher σ) : ∀ (l1 l2 : List Call) (w : WSt σ),
+    run c M w (l1 ++ l2) =
+      ((run c M (run c M w l1).1 l2).1, (run c M w l1).2 ++ (run c M (run c M w l1).1 l2).2) := by
+  intro l1
+  induction l1 with
+  | nil => intro l2 w; rfl
+  | cons call l1 ih =>
+    intro l2 w
+    rw [List.cons_append, run_cons, ih, run_cons]
+    rfl
+
+theorem run_snoc (c : Cfg) (M : Matcher σ) (calls : List Call) (call : Call) (w : WSt σ) :
+    (run c M w (calls ++ [call])).1 = (step c M (run c M w calls).1 call).1 ∧
+    (allOk (run c M w (calls ++ [call])).2 ↔
+      allOk (run c M w calls).2 ∧ (step c M (run c M w calls).1 call).2.err = none) := by
+  rw [run_append]
+  refine ⟨rfl, ?_⟩
+  dsimp only
+  rw [allOk_append]
+  have : (run c M (run c M w calls).1 [call]).2 =
+      [((step c M (run c M w calls).1 call).2, (step c M (run c M w calls).1 call).1.out.size)] := rfl
+  rw [this, allOk_cons]
+  simp only [allOk_nil, and_true]
+
+theorem payload_append_flush (calls : List Call) : payload (calls ++ [.flush]) = payload calls := by
+  induction calls with
+  | nil => rfl
+  | cons call calls ih =>
+    cases call <;> simp only [List.cons_append, payload, ih]
+
+theorem run_spec (c : Cfg) (hc : CfgOk c) (M : Matcher σ) (hM : MatcherOk c M) :
+    ∀ (calls : List Call) (w : WSt σ) (d : ByteArray), RunInv c w d →
+      (∀ call ∈ calls, ¬ (call matches .close)) → allOk (run c M w calls).2 →
+      RunInv c (run c M w calls).1 (d ++ payload calls) := by
+  intro calls
+  induction calls with
+  | nil =>
+    intro w d h _ _
+    show RunInv c w (d ++ ByteArray.empty)
+    rw [ByteArray.append_empty]; exact h
+  | cons call rest ih =>
+    intro w d h hnc hok
+    rw [run_cons] at hok ⊢
+    rw [allOk_cons] at hok
+    obtain ⟨herr, hrest⟩ := hok
+    have hnc' : ∀ call ∈ rest, ¬ (call matches .close) := fun x hx => hnc x (List.mem_cons_of_mem _ hx)
+    cases call with
+    | write p =>
+      have h1 := (step_write c (cfgOk' hc) M (matcherOk' hM) w d p h).2 herr
+      have := ih _ _ h1 hnc' hrest
+      show RunInv c _ (d ++ (p ++ payload rest))
+      rw [← ByteArray.append_assoc]
+      exact this
+    | flush =>
+      have h1 := ((step_flush c (cfgOk' hc) M (matcherOk' hM) w d h).2 herr).1
+      exact ih _ _ h1 hnc' hrest
+    | close =>
+      exact absurd rfl (hnc .close (List.mem_cons_self))
+
+theorem run_margin (hmargin : 25 ≤ Gen.lzma_opLenMargin) (c : Cfg) (hc : CfgOk c) (M : Matcher σ)
+    (hM : MatcherOk c M) :
+    ∀ (calls : List Call) (w : WSt σ) (d : ByteArray), RunInv c w d →
+      (∀ call ∈ calls, ¬ (call matches .close)) → allOk (run c M w calls).2 := by
+  intro calls
+  induction calls with
+  | nil => intro w d _ _; exact allOk_nil
+  | cons call rest ih =>
+    intro w d h hnc
+    rw [run_cons, allOk_cons]
+    have hnc' : ∀ call ∈ rest, ¬ (call matches .close) := fun x hx => hnc x (List.mem_cons_of_mem _ hx)
+    cases call with
+    | write p =>
+      have hs := step_write c (cfgOk' hc) M (matcherOk' hM) w d p h
+      have herr := hs.1.2 hmargin
+      exact ⟨herr, ih _ _ (hs.2 herr) hnc'⟩
+    | flush =>
+      have hs := step_flush c (cfgOk' hc) M (matcherOk' hM) w d h
+      have herr := hs.1.2 hmargin
+      exact ⟨herr, ih _ _ (hs.2 herr).1 hnc'⟩
+    | close =>
+      exact absurd rfl (hnc .close (List.mem_cons_self))
+
+theorem step_errOk (c : Cfg) (hc : CfgOk c) (M : Matcher σ) (hM : MatcherOk c M) (w : WSt σ) (d : ByteArray)
+    (h : RunInv c w d) (call : Call) : ErrOk (step c M w call).2.err := by
+  cases call with
+  | write p => exact (step_write c (cfgOk' hc) M (matcherOk' hM) w d p h).1
+  | flush => exact (step_flush c (cfgOk' hc) M (matcherOk' hM) w d h).1
+  | close => exact (step_close c (cfgOk' hc) M (matcherOk' hM) w d h).1
+
+theorem init_run (c : Cfg) (hc : CfgOk c) (M : Matcher σ) (hM : MatcherOk c M) (m0 : σ)
+    (calls : List Call) (hnc : ∀ call ∈ calls, ¬ (call matches .close))
+    (hok : allOk (run c M (init c m0) calls).2) :
+    RunInv c (run c M (init c m0) calls).1 (payload calls) := by
+  have := run_spec c hc M hM calls _ _ (init_inv c m0) hnc hok
+  rwa [ByteArray.empty_append] at this
+
+/-- nothing pending: the emitted content is everything accepted -/
+theorem quiescent {c : Cfg} {w : WSt σ} (hi : Inv c w) (h0 : w.written = 0) :
+    (w.chunks.foldl emitChunk (e0 c.dictCap)).h.out = w.hist ++ w.look := by
+  have hs := hi.start
+  have hst : w.start = w.hist.size := by unfold WSt.written WSt.compressed at h0; omega
+  have hl : w.look = ByteArray.empty := by
+    apply ByteArray.size_eq_zero_iff.mp
+    unfold WSt.written at h0; omega
+  rw [← Array.foldl_toList]
+  have := hi.eh
+  unfold EE at this
+  rw [this, hl, ByteArray.append_empty]
+  unfold H0
+  dsimp only
+  rw [hst, ByteArray.extract_zero_size]
+
+theorem chunksOk_of_inv {c : Cfg} {w : WSt σ} (hi : Inv c w) (strict : Bool) :
+    ChunksOk strict (e0 c.dictCap) .init w.chunks.toList := by
+  obtain ⟨q, hq, _⟩ := hi.cks
+  exact COk.chunksOk strict _ _ _ _ (hq strict)
+
+theorem out_push_eq {c : Cfg} {w : WSt σ} (hi : Inv c w) :
+    w.out.push 0 = emit c.dictCap (w.chunks.push { kind := .eos, usize := 0 }) := by
+  have := emit_eq c.dictCap w.chunks
+  unfold eosChunk at this
+  rw [this, ← hi.out, ← push_eq_append]
+
+theorem encWrite_n_le (c : Cfg) (M : Matcher σ) (p : ByteArray) : ∀ (fuel : Nat) (w : WSt σ) (n : Nat),
+    n ≤ p.size → (encWrite c M p fuel w n).2 ≤ p.size := by
+  intro fuel
+  induction fuel with
+  | zero => intro w n hn; exact hn
+  | succ fuel ih =>
+    intro w n hn
+    have hk : n + (w.dictWrite c p n).2 ≤ p.size := by
+      show n + min (p.size - n) (w.dictAvail c) ≤ p.size
+      omega
+    unfold encWrite
+    simp only []
+    generalize (w.dictWrite c p n).1 = w1 at *
+    generalize (w.dictWrite c p n).2 = k at *
+    by_cases hlt : n + k < p.size
+    · rw [if_pos hlt]
+      generalize compress c M false _ _ = r
+      cases r with
+      | ok w2 => exact ih _ _ hk
+      | limit w2 => exact hk
+      | broken w2 => exact hk
+      | bad w2 s => exact hk
+    · rw [if_neg hlt]
+      exact hk
+
+theorem write_ok_n (c : Cfg) (M : Matcher σ) (p : ByteArray) : ∀ (fuel : Nat) (w : WSt σ) (n : Nat),
+    n ≤ p.size → (write c M p fuel w n).2.2 = none → (write c M p fuel w n).2.1 = p.size := by
+  intro fuel
+  induction fuel with
+  | zero => intro w n _ h; exact absurd h (by simp [write])
+  | succ fuel ih =>
+    intro w n hn
+    unfold write
+    by_cases hlt : n < p.size
+    · rw [if_pos hlt]
+      simp only []
+      split
+      · intro h; exact absurd h (by simp)
+      · generalize hq : p.extract n (if n + (Gen.lzma_maxUncompressed - w.written) < p.size then
+          n + (Gen.lzma_maxUncompressed - w.written) else p.size) = q
+        have hqs : q.size ≤ p.size - n := by
+          rw [← hq, ByteArray.size_extract]
+          split <;> omega
+        have hle := encWrite_n_le c M q (q.size + 2) w 0 (Nat.zero_le _)
+        rcases hr : encWrite c M q (q.size + 2) w 0 with ⟨res, k⟩
+        rw [hr] at hle
+        have hk : n + k ≤ p.size := by dsimp only at hle; omega
+        cases res with
+        | bad w' s => intro h; exact absurd h (by simp)
+        | broken w' => intro h; exact absurd h (by simp)
+        | limit w' =>
+          simp only []
+          split
+          · intro h; exact absurd h (by simp)
+          · exact ih _ _ hk
+        | ok w' =>
+          simp only []
+          split
+          · split
+            · intro h; exact absurd h (by simp)
+            · exact ih _ _ hk
+          · exact ih _ _ hk
+    · rw [if_neg hlt]
+      intro _
+      show n = p.size
+      omega
+
+/-! ## statements to prove (do not change them) -/
+
+/-- **Refinement.** After any history of successful calls (none of them `Close`), the sink holds exactly the
+    emission of the recorded chunk list, the list is well-formed under both rule sets, and its content plus
+    the bytes still pending in the writer (the open chunk and the look-ahead) is the accepted data. -/
+theorem run_refines (strict : Bool) (c : Cfg) (hc : CfgOk c) (M : Matcher σ) (hM : MatcherOk c M) (m0 : σ)
+    (calls : List Call) (hnc : ∀ call ∈ calls, ¬ (call matches .close))
+    (hok : allOk (run c M (init c m0) calls).2) :
+    let w := (run c M (init c m0) calls).1
+    ChunksOk strict (e0 c.dictCap) .init w.chunks.toList ∧
+    w.out = chunksBytes (e0 c.dictCap) w.chunks.toList ∧
+    (w.chunks.foldl emitChunk (e0 c.dictCap)).h.out = w.hist.extract 0 w.start ∧
+    w.hist ++ w.look = payload calls := by
+  intro w
+  have h := init_run c hc M hM m0 calls hnc hok
+  refine ⟨chunksOk_of_inv h.inv strict, h.inv.out, ?_, h.data⟩
+  rw [← Array.foldl_toList]
+  have := h.inv.eh
+  unfold EE at this
+  rw [this]
+  rfl
+
+/-- **Flush clause of C08.** After a successful history that ends with `Flush`, the sink plus an end marker
+    decodes (format rules and Go rules) to exactly the accepted data and every byte is consumed. -/
+theorem flush_prefix_decodes (strict : Bool) (c : Cfg) (hc : CfgOk c) (M : Matcher σ) (hM : MatcherOk c M) (m0 : σ)
+    (calls : List Call) (hnc : ∀ call ∈ calls, ¬ (call matches .close))
+    (hok : allOk (run c M (init c m0) (calls ++ [.flush])).2) :
+    let w := (run c M (init c m0) (calls ++ [.flush])).1
+    ∃ r, decode strict c.dictCap (w.out.push 0) 0 ByteArray.empty = (r, .eof) ∧
+      r.h.out = payload calls ∧ r.pos = w.out.size + 1 := by
+  intro w
+  obtain ⟨hw, hall⟩ := run_snoc c M calls .flush (init c m0)
+  obtain ⟨hok1, herr⟩ := hall.mp hok
+  have h := init_run c hc M hM m0 calls hnc hok1
+  obtain ⟨h1, h0⟩ := (step_flush c (cfgOk' hc) M (matcherOk' hM) _ _ h).2 herr
+  have hwe : w = (step c M (run c M (init c m0) calls).1 .flush).1 := hw
+  rw [← hwe] at h1 h0
+  obtain ⟨r, a1, _, a3, a4, _, _⟩ := decode_emit strict c.dictCap w.chunks (chunksOk_of_inv h1.inv strict)
+  rw [← out_push_eq h1.inv] at a1 a4
+  refine ⟨r, a1, ?_, ?_⟩
+  · rw [a3, quiescent h1.inv h0, h1.data]
+  · rw [a4, ByteArray.size_push]
+
+/-- **Close clause of C08 / C01.** After a successful history that ends with `Close`, the sink decodes to exactly
+    the accepted data followed by a clean end, consuming every byte. -/
+theorem close_decodes (strict : Bool) (c : Cfg) (hc : CfgOk c) (M : Matcher σ) (hM : MatcherOk c M) (m0 : σ)
+    (calls : List Call) (hnc : ∀ call ∈ calls, ¬ (call matches .close))
+    (hok : allOk (run c M (init c m0) (calls ++ [.close])).2) :
+    let w := (run c M (init c m0) (calls ++ [.close])).1
+    ∃ r, decode strict c.dictCap w.out 0 ByteArray.empty = (r, .eof) ∧
+      r.h.out = payload calls ∧ r.pos = w.out.size ∧ r.seq = .ended := by
+  intro w
+  obtain ⟨hw, hall⟩ := run_snoc c M calls .close (init c m0)
+  obtain ⟨hok1, herr⟩ := hall.mp hok
+  have h := init_run c hc M hM m0 calls hnc hok1
+  obtain ⟨w', hi', h0, hd, hst⟩ := (step_close c (cfgOk' hc) M (matcherOk' hM) _ _ h).2 herr
+  have hwe : w = (step c M (run c M (init c m0) calls).1 .close).1 := hw
+  rw [← hwe] at hst
+  obtain ⟨r, a1, _, a3, a4, a5, _⟩ := decode_emit strict c.dictCap w'.chunks (chunksOk_of_inv hi' strict)
+  rw [← out_push_eq hi'] at a1 a4
+  have hout : w.out = w'.out.push 0 := by rw [hst]
+  rw [hout]
+  refine ⟨r, a1, ?_, a4, a5⟩
+  rw [a3, quiescent hi' h0, hd]
+
+/-- a successful `Write` has taken every byte -/
+theorem write_ok_all (c : Cfg) (M : Matcher σ) (w : WSt σ) (p : ByteArray)
+    (h : (step c M w (.write p)).2.err = none) : (step c M w (.write p)).2.n = p.size := by
+  by_cases hcl : w.closed = true
+  · simp only [step, hcl, if_true] at h
+    exact absurd h (by simp)
+  · have hcl' : w.closed = false := by
+      cases hb : w.closed
+      · rfl
+      · exact absurd hb hcl
+    simp only [step, hcl', Bool.false_eq_true, if_false] at h ⊢
+    exact write_ok_n c M p _ w 0 (Nat.zero_le _) h
+
+/-- calls after `Close` fail with errClosed and change nothing (in particular emit nothing) -/
+theorem after_close (c : Cfg) (M : Matcher σ) (w : WSt σ) (call : Call) (h : w.closed = true) :
+    step c M w call = (w, { err := some .closed }) := by
+  cases call <;> simp only [step, h, if_true]
+
+/-- a `Flush` with nothing pending emits nothing and succeeds -/
+theorem idle_flush (c : Cfg) (M : Matcher σ) (w : WSt σ) (h : w.written = 0) (hcl : w.closed = false) :
+    step c M w .flush = (w, {}) := by
+  unfold step
+  simp only [hcl, Bool.false_eq_true, if_false]
+  unfold flushLoop
+  rw [if_neg (by omega)]
+
+/-- **Failure analysis.** With a valid configuration and an applicable match finder the only way a call can
+    fail (before `Close`) is the byte limit of the range coder (`ErrLimit` surfacing: an operation admitted
+    with `opLenMargin` bytes of room needed more than `opLenMargin − 5`): no panic, no "other" error, no
+    exhausted fuel. -/
+theorem first_error_is_limit (c : Cfg) (hc : CfgOk c) (M : Matcher σ) (hM : MatcherOk c M) (m0 : σ)
+    (calls : List Call) (hnc : ∀ call ∈ calls, ¬ (call matches .close)) (call : Call)
+    (hok : allOk (run c M (init c m0) calls).2) :
+    let r := (step c M (run c M (init c m0) calls).1 call).2
+    r.err = none ∨ r.err = some .limit := by
+  intro r
+  have h := init_run c hc M hM m0 calls hnc hok
+  exact (step_errOk c hc M hM _ _ h call).1
+
+/-- **Success under a sufficient margin.** One operation costs at most 20 bytes (`op_digits_bound`) and closing
+    the range coder needs 5 more; if `opLenMargin ≥ 25` no call ever fails. -/
+theorem no_error_of_margin (hmargin : 25 ≤ Gen.lzma_opLenMargin)
+    (c : Cfg) (hc : CfgOk c) (M : Matcher σ) (hM : MatcherOk c M) (m0 : σ)
+    (calls : List Call) (hnc : ∀ call ∈ calls, ¬ (call matches .close)) (call : Call) :
+    allOk (run c M (init c m0) (calls ++ [call])).2 := by
+  obtain ⟨_, hall⟩ := run_snoc c M calls call (init c m0)
+  have hok1 := run_margin hmargin c hc M hM calls _ _ (init_inv c m0) hnc
+  have h := init_run c hc M hM m0 calls hnc hok1
+  exact hall.mpr ⟨hok1, (step_errOk c hc M hM _ _ h call).2 hmargin⟩
+
+/-- **Chunk discipline of the writer (C16, C17 premises).** Every chunk the writer records is either raw with
+    1…65536 bytes or compressed with 1…2^21 bytes of content in at most 65536 bytes; the compressed form is
+    chosen only when it is not larger than the raw form would be (`c + hdr ≤ u + 3`) or the data is no longer
+    in the dictionary window. Follows from `run_refines`; stated for the size accounting of C17. -/
+theorem chunk_sizes (c : Cfg) (hc : CfgOk c) (M : Matcher σ) (hM : MatcherOk c M) (m0 : σ)
+    (calls : List Call) (hnc : ∀ call ∈ calls, ¬ (call matches .close))
+    (hok : allOk (run c M (init c m0) calls).2) :
+    ∀ ck ∈ (run c M (init c m0) calls).1.chunks.toList,
+      (ck.kind = .u ∨ ck.kind = .ud) ∧ 1 ≤ ck.raw.size ∧ ck.raw.size ≤ 65536 ∨
+      isLz ck.kind ∧ ck.ops ≠ #[] := by
+  have h := init_run c hc M hM m0 calls hnc hok
+  obtain ⟨q, hq, _⟩ := h.inv.cks
+  intro ck hck
+  exact COk.sizeOk true _ _ _ _ (hq true) ck hck
+
+#print axioms W2.run_refines
+#print axioms W2.flush_prefix_decodes
+#print axioms W2.close_decodes
+#print axioms W2.write_ok_all
+#print axioms W2.after_close
+#print axioms W2.idle_flush
+#print axioms W2.first_error_is_limit
+#print axioms W2.no_error_of_margin
+#print axioms W2.chunk_sizes
 
 end W2
